@@ -205,28 +205,48 @@ Qed.
 Lemma hit_pred_0 : hit 0 = false /\ pred 0 = 0.
 Proof. split; reflexivity. Qed.
 
-Lemma skip_empty_spec l : forall cn,
-  match skip_empty cn l with
-  | FGot c r => c <> [] /\ concat l = c ++ concat r /\ (forall x, In x r -> In x l)
-  | FEnd => concat l = []
-  | FCancel r => concat l = concat r /\ (forall x, In x r -> In x l)
-  end.
+Lemma feeds_step (acc : list Z) fs j :
+  (acc ++ hd [] fs) ++ concat (firstn j (tl fs)) = acc ++ concat (firstn (S j) fs).
 Proof.
-  induction l as [|c0 r0 IH]; intros cn; cbn [skip_empty]; destruct (hit cn).
-  - split; [reflexivity|auto].
-  - reflexivity.
-  - split; [reflexivity|auto].
-  - destruct c0 as [|x c0].
-    + specialize (IH (pred cn)). destruct (skip_empty (pred cn) r0) as [c r| |r].
-      * destruct IH as (H1 & H2 & H3). refine (conj H1 (conj H2 _)). intros y Hy. right. apply H3, Hy.
-      * exact IH.
-      * destruct IH as (H2 & H3). refine (conj H2 _). intros y Hy. right. apply H3, Hy.
-    + refine (conj _ (conj eq_refl _)); [discriminate|]. intros y Hy. now right.
+  destruct fs as [|f r]; cbn [hd tl firstn concat].
+  - rewrite firstn_nil. cbn. now rewrite !app_nil_r.
+  - now rewrite <- app_assoc.
 Qed.
 
-Lemma skip_empty_0_not_cancelled l : forall r, skip_empty 0 l <> FCancel r.
+Lemma feeds_one (acc : list Z) fs : acc ++ hd [] fs = acc ++ concat (firstn 1 fs).
+Proof. destruct fs as [|f r]; cbn; [reflexivity|now rewrite app_nil_r]. Qed.
+
+Lemma skip_empty_spec l : forall cn fs acc,
+  match skip_empty cn l fs acc with
+  | FGot c r fed => c <> [] /\ concat l = c ++ concat r /\ (forall x, In x r -> In x l) /\
+                    exists j, fed = acc ++ concat (firstn j fs)
+  | FEnd fed => concat l = [] /\ exists j, fed = acc ++ concat (firstn j fs)
+  | FCancel r fed => concat l = concat r /\ (forall x, In x r -> In x l) /\
+                     exists j, fed = acc ++ concat (firstn j fs)
+  end.
 Proof.
-  induction l as [|c0 r0 IH]; intros r; cbn [skip_empty hit Nat.eqb]; [discriminate|].
+  induction l as [|c0 r0 IH]; intros cn fs acc; cbn [skip_empty]; destruct (hit cn).
+  - refine (conj eq_refl (conj (fun x h => h) _)). exists 0. cbn. now rewrite app_nil_r.
+  - split; [reflexivity|]. exists 1. apply feeds_one.
+  - refine (conj eq_refl (conj (fun x h => h) _)). exists 0. cbn. now rewrite app_nil_r.
+  - destruct c0 as [|x c0].
+    + specialize (IH (pred cn) (tl fs) (acc ++ hd [] fs)).
+      destruct (skip_empty (pred cn) r0 (tl fs) (acc ++ hd [] fs)) as [c r fed|fed|r fed].
+      * destruct IH as (H1 & H2 & H3 & j & H4). refine (conj H1 (conj H2 (conj _ _))).
+        -- intros y Hy. right. apply H3, Hy.
+        -- exists (S j). rewrite H4. apply feeds_step.
+      * destruct IH as (H2 & j & H4). refine (conj H2 _). exists (S j). rewrite H4. apply feeds_step.
+      * destruct IH as (H2 & H3 & j & H4). refine (conj H2 (conj _ _)).
+        -- intros y Hy. right. apply H3, Hy.
+        -- exists (S j). rewrite H4. apply feeds_step.
+    + refine (conj _ (conj eq_refl (conj _ _))); [discriminate| |].
+      * intros y Hy. now right.
+      * exists 1. apply feeds_one.
+Qed.
+
+Lemma skip_empty_0_not_cancelled l : forall fs acc r fed, skip_empty 0 l fs acc <> FCancel r fed.
+Proof.
+  induction l as [|c0 r0 IH]; intros fs acc r fed; cbn [skip_empty hit Nat.eqb]; [discriminate|].
   destruct c0; [apply IH|discriminate].
 Qed.
 
@@ -460,6 +480,9 @@ Definition log_spec (s : st) (o : op) (s' : st) (lg : list Z) : Prop :=
   | Feed d => lg = d /\ src s' = src s
   | Until d m fs | CUntil _ d m fs =>
       exists k, src s' = fetch_rest k (knd s) (src s) /\ lg = fetch_arrivals k (knd s) (src s) fs
+  | Receive n fs | CReceive _ n fs =>
+      (* the item the call was waiting for, then what was fed during its j fetches *)
+      exists item j, lg = item ++ concat (firstn j fs) /\ concat (src s) = item ++ concat (src s')
   | _ => concat (src s) = lg ++ concat (src s')
   end.
 
@@ -476,54 +499,66 @@ Proof.
   - exists []. reflexivity.
 Qed.
 
-Lemma receive_conservation cn s n s' r lg : do_receive false cn s n = (s', r, lg) ->
-  conserve s (consumed_of (Receive n) r) s' r lg /\ concat (src s) = lg ++ concat (src s').
+Lemma receive_conservation cn s n fs s' r lg : do_receive false cn s n fs = (s', r, lg) ->
+  conserve s (consumed_of (Receive n fs) r) s' r lg /\
+  exists item j, lg = item ++ concat (firstn j fs) /\ concat (src s) = item ++ concat (src s').
 Proof.
+  assert (Same : forall r0, r0 <> RFuel ->
+            conserve s [] s r0 [] /\ exists item j, [] = item ++ concat (firstn j fs) /\ concat (src s) = item ++ concat (src s)).
+  { intros r0 Hr. split; [apply conserve_same, Hr|]. exists [], 0. split; reflexivity. }
   unfold do_receive. intros H. destruct (n <? 1)%Z eqn:En1.
-  { injection H as <- <- <-. split; [apply conserve_same; discriminate|reflexivity]. }
+  { injection H as <- <- <-. apply Same. discriminate. }
   destruct (buf s) as [|b0 b] eqn:Eb.
   - destruct (knd s) eqn:Ek.
     + destruct (hit cn).
-      { injection H as <- <- <-. split; [apply conserve_same; discriminate|reflexivity]. }
+      { injection H as <- <- <-. apply Same. discriminate. }
       destruct (pull KByte (Z.to_nat n) (src s)) as [[c r0]|] eqn:P.
       * injection H as <- <- <-. cbn [consumed_of]. pose proof (pull_spec _ _ _ _ _ P) as Hc.
-        split; [|exact Hc]. unfold conserve. cbn [knd src buf]. rewrite ?Ek, ?Eb.
-        refine (conj eq_refl (conj _ (conj _ (conj _ _)))).
-        -- discriminate.
-        -- intros Hs. assert (Hn1 : 1 <= Z.to_nat n) by lia. apply (pull_nonempty _ _ _ _ _ Hs Hn1 P).
-        -- cbn. now rewrite !app_nil_r.
-        -- exists c. exact Hc.
-      * injection H as <- <- <-. split; [apply conserve_same; discriminate|reflexivity].
-    + pose proof (skip_empty_spec (src s) cn) as S.
-      cbn [negb] in H. destruct (skip_empty cn (src s)) as [c r0| |r0].
-      * destruct S as (Hc0 & Hc & Hin).
+        split.
+        -- unfold conserve. cbn [knd src buf]. rewrite ?Ek, ?Eb.
+           refine (conj eq_refl (conj _ (conj _ (conj _ _)))).
+           ++ discriminate.
+           ++ intros Hs. assert (Hn1 : 1 <= Z.to_nat n) by lia. apply (pull_nonempty _ _ _ _ _ Hs Hn1 P).
+           ++ cbn. now rewrite !app_nil_r.
+           ++ exists c. exact Hc.
+        -- exists c, 1. split; [|exact Hc]. f_equal. change (hd [] fs) with ([] ++ hd [] fs). apply feeds_one.
+      * injection H as <- <- <-. cbn [consumed_of]. split.
+        -- unfold conserve. cbn [knd src buf]. rewrite ?Ek, ?Eb.
+           refine (conj eq_refl (conj _ (conj (fun h => h) (conj eq_refl _)))); [discriminate|exists []; reflexivity].
+        -- exists [], 1. split; [|reflexivity]. change (hd [] fs) with ([] ++ hd [] fs). apply feeds_one.
+    + pose proof (skip_empty_spec (src s) cn fs []) as S.
+      cbn [negb] in H. destruct (skip_empty cn (src s) fs []) as [c r0 fed| fed |r0 fed].
+      * destruct S as (Hc0 & Hc & Hin & j & Hfed). cbn [app] in Hfed.
         assert (Hne : chunks_nonempty (src s) -> chunks_nonempty r0)
           by (intros Hs x Hx; apply Hs, Hin, Hx).
-        destruct (n <? Z.of_nat (length c))%Z; injection H as <- <- <-; cbn [consumed_of]; (split; [|exact Hc]);
+        destruct (n <? Z.of_nat (length c))%Z; injection H as <- <- <-; cbn [consumed_of];
+          (split; [|exists c, j; split; [now rewrite Hfed|exact Hc]]);
           unfold conserve; cbn [knd src buf]; rewrite ?Ek, ?Eb.
         -- refine (conj eq_refl (conj _ (conj Hne (conj _ _)))).
            ++ discriminate.
-           ++ cbn [app]. rewrite app_nil_r. apply firstn_cut_split.
+           ++ cbn [app]. rewrite app_nil_r, app_assoc. f_equal. apply firstn_cut_split.
            ++ exists c. exact Hc.
         -- refine (conj eq_refl (conj _ (conj Hne (conj _ _)))).
            ++ discriminate.
            ++ cbn. now rewrite !app_nil_r.
            ++ exists c. exact Hc.
-      * injection H as <- <- <-. cbn [consumed_of]. split; [|rewrite S; reflexivity].
+      * destruct S as (Hc & j & Hfed). cbn [app] in Hfed. injection H as <- <- <-. cbn [consumed_of].
+        split; [|exists [], j; split; [exact Hfed|rewrite Hc; reflexivity]].
         unfold conserve. cbn [knd src buf]. rewrite ?Ek, ?Eb.
         refine (conj eq_refl (conj _ (conj _ (conj _ _)))).
         -- discriminate.
         -- intros _ x [].
         -- reflexivity.
-        -- exists []. rewrite S. reflexivity.
-      * destruct S as (Hc & Hin). injection H as <- <- <-. cbn [consumed_of]. split; [|exact Hc].
+        -- exists []. rewrite Hc. reflexivity.
+      * destruct S as (Hc & Hin & j & Hfed). cbn [app] in Hfed. injection H as <- <- <-. cbn [consumed_of].
+        split; [|exists [], j; split; [exact Hfed|exact Hc]].
         unfold conserve. cbn [knd src buf]. rewrite ?Ek, ?Eb.
         refine (conj eq_refl (conj _ (conj _ (conj _ _)))).
         -- discriminate.
         -- intros Hs x Hx. apply Hs, Hin, Hx.
         -- reflexivity.
         -- exists []. exact Hc.
-  - injection H as <- <- <-. cbn [consumed_of]. split; [|reflexivity].
+  - injection H as <- <- <-. cbn [consumed_of]. split; [|exists [], 0; split; reflexivity].
     unfold conserve. cbn [knd src buf]. rewrite ?Ek, ?Eb.
     refine (conj eq_refl (conj _ (conj (fun h => h) (conj _ _)))).
     + discriminate.
@@ -579,15 +614,15 @@ Proof.
                  buf s ++ lg = c ++ buf s' /\ (exists pulled, concat (src s) = pulled ++ concat (src s')) /\
                  log_spec s o s' lg).
   { intros c (A & B & C & D & E) L. exact (conj A (conj B (conj C (conj D (conj E L))))). }
-  unfold step_log. destruct o as [n|n|d m fs|d|k n|k n|k d m fs]; cbn [step_gen]; intros H.
-  - destruct (receive_conservation _ _ _ _ _ _ H) as [C L]. exact (Flat _ C L).
+  unfold step_log. destruct o as [n fs|n|d m fs|d|k n fs|k n|k d m fs]; cbn [step_gen]; intros H.
+  - destruct (receive_conservation _ _ _ _ _ _ _ H) as [C L]. exact (Flat _ C L).
   - destruct (exactly_conservation _ _ _ _ _ _ H) as [C L]. exact (Flat _ C L).
   - destruct (until_conservation _ _ _ _ _ _ _ _ H) as [C L]. exact (Flat _ C L).
   - injection H as <- <- <-. apply (Flat []); [|split; reflexivity].
     refine (conj eq_refl (conj _ (conj (fun h => h) (conj eq_refl _)))); [discriminate|exists []; reflexivity].
   - destruct k as [|k].
-    + injection H as <- <- <-. apply (Flat []); [apply conserve_same; discriminate|reflexivity].
-    + destruct (receive_conservation _ _ _ _ _ _ H) as [C L]. exact (Flat _ C L).
+    + injection H as <- <- <-. apply (Flat []); [apply conserve_same; discriminate|]. exists [], 0. split; reflexivity.
+    + destruct (receive_conservation _ _ _ _ _ _ _ H) as [C L]. exact (Flat _ C L).
   - destruct k as [|k].
     + injection H as <- <- <-. apply (Flat []); [apply conserve_same; discriminate|reflexivity].
     + destruct (exactly_conservation _ _ _ _ _ _ H) as [C L]. exact (Flat _ C L).
@@ -634,10 +669,12 @@ Qed.
 
 Lemma log_no_feed s o s' lg : no_feed o = true -> log_spec s o s' lg -> lg ++ concat (src s') = concat (src s).
 Proof.
-  unfold log_spec. destruct o as [n|n|d m fs|d|c n|c n|c d m fs]; cbn [no_feed]; intros Hn H;
+  unfold log_spec. destruct o as [n fs|n|d m fs|d|c n fs|c n|c d m fs]; cbn [no_feed]; intros Hn H;
     try (symmetry; exact H).
+  - destruct fs; [|discriminate]. destruct H as (item & j & -> & ->). rewrite firstn_nil. cbn. now rewrite app_nil_r.
   - destruct fs; [|discriminate]. destruct H as (k & -> & ->). apply fetch_arrivals_nofeed.
   - discriminate.
+  - destruct fs; [|discriminate]. destruct H as (item & j & -> & ->). rewrite firstn_nil. cbn. now rewrite app_nil_r.
   - destruct fs; [|discriminate]. destruct H as (k & -> & ->). apply fetch_arrivals_nofeed.
 Qed.
 
@@ -709,64 +746,100 @@ Qed.
 
 (* cancellation at entry (k = 0) touches nothing at all; calls outside a cancelled scope never end in RCancelled *)
 Theorem buf_entry_cancel s n d m fs :
-  step_log s (CReceive 0 n) = (s, RCancelled, []) /\
+  step_log s (CReceive 0 n fs) = (s, RCancelled, []) /\
   step_log s (CExactly 0 n) = (s, RCancelled, []) /\
   step_log s (CUntil 0 d m fs) = (s, RCancelled, []).
 Proof. repeat split. Qed.
 
 Theorem buf_uncancelled_never_cancelled s o :
-  match o with CReceive _ _ | CExactly _ _ | CUntil _ _ _ _ => True | _ => snd (step s o) <> RCancelled end.
+  match o with CReceive _ _ _ | CExactly _ _ | CUntil _ _ _ _ => True | _ => snd (step s o) <> RCancelled end.
 Proof.
-  unfold step, step_log. destruct o as [n|n|d m fs|d|k n|k n|k d m fs]; cbn [step_gen]; try exact I.
-  - pose proof (skip_empty_0_not_cancelled (src s)) as NC.
+  unfold step, step_log. destruct o as [n fs|n|d m fs|d|k n fs|k n|k d m fs]; cbn [step_gen]; try exact I.
+  - pose proof (skip_empty_0_not_cancelled (src s) fs []) as NC.
     unfold do_receive. cbn [hit Nat.eqb negb]. destruct (n <? 1)%Z; [discriminate|].
     destruct (buf s); [|discriminate]. destruct (knd s).
     + destruct (pull KByte (Z.to_nat n) (src s)) as [[c r0]|]; discriminate.
-    + destruct (skip_empty 0 (src s)) as [c r0| |r0].
+    + destruct (skip_empty 0 (src s) fs []) as [c r0 fed|fed|r0 fed].
       * destruct (n <? Z.of_nat (length c))%Z; discriminate.
       * discriminate.
-      * exfalso. apply (NC r0). reflexivity.
+      * exfalso. apply (NC r0 fed). reflexivity.
   - unfold do_exactly. cbn [negb andb]. destruct (n <? 0)%Z; [discriminate|]. apply exactly_loop_0.
   - apply until_loop_0.
   - discriminate.
 Qed.
 
-(* receive(n): for EVERY chunking of an object stream, empty items included *)
-Theorem buf_receive_spec s n s' r : step s (Receive n) = (s', r) ->
+(* receive(n): for EVERY chunking of an object stream, empty items included, and every feed during its waits *)
+Theorem buf_receive_spec s n fs s' r lg : step_log s (Receive n fs) = (s', r, lg) ->
   ((n < 1)%Z -> r = RValueError /\ s' = s) /\
   ((1 <= n)%Z -> (knd s = KByte -> chunks_nonempty (src s)) ->
      (exists x, r = RBytes x /\ 1 <= length x <= Z.to_nat n /\
-                (buf s <> [] -> x = firstn (Z.to_nat n) (buf s) /\ src s' = src s)) \/
-     (r = REnd /\ buf s = [] /\ concat (src s) = [] /\ buf s' = [] /\ src s' = [])).
+                (buf s <> [] -> x = firstn (Z.to_nat n) (buf s) /\ src s' = src s /\ lg = [])) \/
+     (r = REnd /\ buf s = [] /\ concat (src s) = [] /\ src s' = [] /\ buf s' = lg)).
 Proof.
-  unfold step, step_log. cbn [step_gen]. unfold do_receive. intros H. split.
-  - intros Hn. destruct (n <? 1)%Z eqn:E; [|lia]. cbn [fst] in H. injection H as <- <-. auto.
+  unfold step_log. cbn [step_gen]. unfold do_receive. cbn [hit Nat.eqb]. intros H. split.
+  - intros Hn. destruct (n <? 1)%Z eqn:E; [|lia]. injection H as <- <- _. auto.
   - intros Hn Hs. destruct (n <? 1)%Z eqn:E; [lia|].
     destruct (buf s) as [|b0 b] eqn:Eb.
     + destruct (knd s) eqn:Ek.
       * specialize (Hs eq_refl).
-        destruct (pull KByte (Z.to_nat n) (src s)) as [[c r0]|] eqn:P; cbn [fst] in H.
-        -- injection H as <- <-. left. exists c.
+        destruct (pull KByte (Z.to_nat n) (src s)) as [[c r0]|] eqn:P.
+        -- injection H as <- <- <-. left. exists c.
            assert (Hn1 : 1 <= Z.to_nat n) by lia.
            destruct (pull_nonempty _ _ _ _ _ Hs Hn1 P) as [Hc _].
            pose proof (pull_byte_bound _ _ _ _ P) as Hb.
            refine (conj eq_refl (conj _ _)); [|congruence].
            destruct c; [congruence|cbn [length] in *; lia].
-        -- injection H as <- <-. right. apply pull_none in P. rewrite P. auto.
-      * pose proof (skip_empty_spec (src s) 0) as S. pose proof (skip_empty_0_not_cancelled (src s)) as NC.
-        destruct (skip_empty 0 (src s)) as [c r0| |r0].
+        -- injection H as <- <- <-. right. apply pull_none in P. rewrite P. cbn [buf src]. auto.
+      * pose proof (skip_empty_spec (src s) 0 fs []) as S.
+        pose proof (skip_empty_0_not_cancelled (src s) fs []) as NC.
+        cbn [negb] in H. destruct (skip_empty 0 (src s) fs []) as [c r0 fed|fed|r0 fed].
         -- destruct S as (Hc & _ & _).
-           destruct (n <? Z.of_nat (length c))%Z eqn:En; cbn [fst] in H; injection H as <- <-; left.
+           destruct (n <? Z.of_nat (length c))%Z eqn:En; injection H as <- <- <-; left.
            ++ exists (firstn (Z.to_nat n) c). refine (conj eq_refl (conj _ _)); [|congruence].
               rewrite firstn_length. lia.
            ++ exists c. refine (conj eq_refl (conj _ _)); [|congruence].
               destruct c; [congruence|cbn [length] in *; lia].
-        -- cbn [fst] in H. injection H as <- <-. right. auto.
-        -- exfalso. apply (NC r0). reflexivity.
-    + cbn [fst] in H. injection H as <- <-. left. exists (firstn (Z.to_nat n) (b0 :: b)).
+        -- injection H as <- <- <-. right. destruct S as (Hc & _). cbn [buf src]. auto.
+        -- exfalso. apply (NC r0 fed). reflexivity.
+    + injection H as <- <- <-. left. exists (firstn (Z.to_nat n) (b0 :: b)).
       refine (conj eq_refl (conj _ _)).
       * rewrite firstn_length. cbn [length]. lia.
-      * intros _. split; reflexivity.
+      * intros _. auto.
+Qed.
+
+(* AN ITEM RECEIVED FROM THE WRAPPED STREAM IS HANDED OUT CONTIGUOUSLY: a receive() parked on an empty buffer that
+   returns x got one item (empty items skipped); x is its head, the rest of the item is at the FRONT of the buffer and
+   whatever was fed while the call waited follows the complete item *)
+Theorem buf_receive_item_contiguous s n fs s' x lg : step_log s (Receive n fs) = (s', RBytes x, lg) ->
+  buf s = [] ->
+  exists item j,
+    concat (src s) = item ++ concat (src s') /\
+    x = firstn (Z.to_nat n) item /\
+    buf s' = skipn (Z.to_nat n) item ++ concat (firstn j fs) /\
+    x ++ buf s' = item ++ concat (firstn j fs) /\
+    lg = item ++ concat (firstn j fs).
+Proof.
+  unfold step_log. cbn [step_gen]. unfold do_receive. cbn [hit Nat.eqb negb]. intros H Eb.
+  destruct (n <? 1)%Z eqn:E; [discriminate|]. rewrite Eb in H.
+  destruct (knd s) eqn:Ek.
+  - destruct (pull KByte (Z.to_nat n) (src s)) as [[c r0]|] eqn:P; [|discriminate].
+    injection H as <- <- <-. cbn [buf src]. exists c, 1.
+    pose proof (pull_byte_bound _ _ _ _ P) as Hb.
+    assert (F1 : [] ++ hd [] fs = concat (firstn 1 fs)) by apply (feeds_one []).
+    cbn [app] in F1. rewrite <- F1.
+    refine (conj (pull_spec _ _ _ _ _ P) (conj _ (conj _ (conj eq_refl eq_refl)))).
+    + symmetry. apply firstn_all2. exact Hb.
+    + rewrite skipn_all2 by exact Hb. reflexivity.
+  - pose proof (skip_empty_spec (src s) 0 fs []) as S.
+    destruct (skip_empty 0 (src s) fs []) as [c r0 fed|fed|r0 fed]; [|discriminate|discriminate].
+    destruct S as (_ & Hc & _ & j & Hfed). cbn [app] in Hfed. subst fed.
+    destruct (n <? Z.of_nat (length c))%Z eqn:En; injection H as <- <- <-; cbn [buf src app]; exists c, j.
+    + refine (conj Hc (conj eq_refl (conj eq_refl (conj _ eq_refl)))).
+      rewrite app_assoc, firstn_skipn. reflexivity.
+    + assert (Hl : length c <= Z.to_nat n) by lia.
+      refine (conj Hc (conj _ (conj _ (conj eq_refl eq_refl)))).
+      * symmetry. apply firstn_all2, Hl.
+      * rewrite skipn_all2 by exact Hl. reflexivity.
 Qed.
 
 Theorem buf_exactly_spec s n s' r : step s (Exactly n) = (s', r) ->
@@ -893,22 +966,41 @@ Proof. vm_compute. reflexivity. Qed.
 
 (* F28: an empty item of an object stream came back as a 0-byte result *)
 Theorem receive_empty_refuted_pinned : exists s n s' lg,
-  knd s = KObject /\ (1 <= n) /\ step_pinned s (Receive n) = (s', RBytes [], lg) /\ concat (src s) <> [].
+  knd s = KObject /\ (1 <= n) /\ step_pinned s (Receive n []) = (s', RBytes [], lg) /\ concat (src s) <> [].
 Proof.
   exists (init KObject [[]; [97]]), 5. eexists. eexists.
   refine (conj eq_refl (conj _ (conj _ _))); [lia | vm_compute; reflexivity | discriminate].
 Qed.
 
 Example receive_empty_head :
-  step (init KObject [[]; []; [97]]) (Receive 5) = (mk KObject [] [], RBytes [97]) /\
-  step (init KObject [[]; []]) (Receive 5) = (mk KObject [] [], REnd).
+  step (init KObject [[]; []; [97]]) (Receive 5 []) = (mk KObject [] [], RBytes [97]) /\
+  step (init KObject [[]; []]) (Receive 5 []) = (mk KObject [] [], REnd).
+Proof. vm_compute. auto. Qed.
+
+(* F43 (767a0e0): "X" is fed while receive(2) waits for the item "abcd": the old code appended the surplus "cd" BEHIND the fed
+   byte, so the item came out as "ab", then "Xcd" - neither "abcdX" nor "Xabcd"; HEAD: "ab", then "cdX" *)
+Theorem receive_item_split_refuted_pinned : exists s n fs s' x lg item,
+  src s = [item] /\ buf s = [] /\ step_pinned s (Receive n fs) = (s', RBytes x, lg) /\
+  x ++ buf s' <> item ++ concat fs /\ x ++ buf s' <> concat fs ++ item.
+Proof.
+  exists (init KObject [[97; 98; 99; 100]]), 2, [[88]]. do 3 eexists. exists [97; 98; 99; 100].
+  refine (conj eq_refl (conj eq_refl (conj _ (conj _ _)))); [vm_compute; reflexivity | discriminate | discriminate].
+Qed.
+
+Example receive_item_split_head :
+  step_log (init KObject [[97; 98; 99; 100]]) (Receive 2 [[88]])
+  = (mk KObject [99; 100; 88] [], RBytes [97; 98], [97; 98; 99; 100; 88]) /\
+  step_log (init KObject [[]; [97; 98; 99]]) (Receive 2 [[88]; [89]; [90]])
+  = (mk KObject [99; 88; 89] [], RBytes [97; 98], [97; 98; 99; 88; 89]) /\
+  step_log (init KByte [[97; 98; 99]]) (Receive 2 [[88]])
+  = (mk KByte [88] [[99]], RBytes [97; 98], [97; 98; 88]).
 Proof. vm_compute. auto. Qed.
 
 (* F29: a negative count consumed data, and how much depended on the chunking *)
 Theorem exactly_negative_refuted_pinned : exists c1 c2 n x1 x2 s1 s2 l1 l2,
   concat c1 = concat c2 /\ n < 0 /\
-  step_pinned (fst (fst (step_pinned (init KObject c1) (Receive 1)))) (Exactly n) = (s1, RBytes x1, l1) /\
-  step_pinned (fst (fst (step_pinned (init KObject c2) (Receive 1)))) (Exactly n) = (s2, RBytes x2, l2) /\
+  step_pinned (fst (fst (step_pinned (init KObject c1) (Receive 1 [])))) (Exactly n) = (s1, RBytes x1, l1) /\
+  step_pinned (fst (fst (step_pinned (init KObject c2) (Receive 1 [])))) (Exactly n) = (s2, RBytes x2, l2) /\
   x1 <> x2.
 Proof.
   exists [[97; 98; 99]], [[97]; [98; 99]], (-1). do 6 eexists.
@@ -945,8 +1037,8 @@ Proof. vm_compute. auto. Qed.
    cancelled scope (k = 1) a call that needs no fetch completes, as HEAD has no checkpoint of its own *)
 Example ex_cancelled :
   step_log (init KByte [[97]; [98]; [99]]) (CExactly 2 5) = (mk KByte [97] [[98]; [99]], RCancelled, [97]) /\
-  step_log (init KObject [[]; [97]]) (CReceive 2 4) = (mk KObject [] [[97]], RCancelled, []) /\
-  step_log (mk KByte [97; 59] [[98]]) (CReceive 1 1) = (mk KByte [59] [[98]], RBytes [97], []) /\
+  step_log (init KObject [[]; [97]]) (CReceive 2 4 []) = (mk KObject [] [[97]], RCancelled, []) /\
+  step_log (mk KByte [97; 59] [[98]]) (CReceive 1 1 []) = (mk KByte [59] [[98]], RBytes [97], []) /\
   step_log (mk KByte [97] [[98; 59]; [99]]) (CUntil 2 [59; 10] 9 []) = (mk KByte [97; 98; 59] [[99]], RCancelled, [98; 59]).
 Proof. vm_compute. auto. Qed.
 
@@ -954,16 +1046,16 @@ Proof. vm_compute. auto. Qed.
 Example ex_fail_keeps_bytes :
   let s1 := fst (step (init KByte [[97]; [98]]) (Exactly 5)) in
   snd (step (init KByte [[97]; [98]]) (Exactly 5)) = RIncomplete /\ buf s1 = [97; 98] /\ src s1 = [] /\
-  snd (step s1 (Receive 1)) = RBytes [97].
+  snd (step s1 (Receive 1 [])) = RBytes [97].
 Proof. vm_compute. auto. Qed.
 
 Example ex_receive_cases :
-  snd (step (init KObject [[97; 98; 59]]) (Receive 2)) = RBytes [97; 98] /\
-  buf (fst (step (init KObject [[97; 98; 59]]) (Receive 2))) = [59] /\
-  snd (step (init KByte [[97; 98; 59]]) (Receive 2)) = RBytes [97; 98] /\
-  src (fst (step (init KByte [[97; 98; 59]]) (Receive 2))) = [[59]] /\
-  snd (step (init KByte []) (Receive 2)) = REnd /\
-  snd (step (init KByte [[97]]) (Receive 0)) = RValueError.
+  snd (step (init KObject [[97; 98; 59]]) (Receive 2 [])) = RBytes [97; 98] /\
+  buf (fst (step (init KObject [[97; 98; 59]]) (Receive 2 []))) = [59] /\
+  snd (step (init KByte [[97; 98; 59]]) (Receive 2 [])) = RBytes [97; 98] /\
+  src (fst (step (init KByte [[97; 98; 59]]) (Receive 2 []))) = [[59]] /\
+  snd (step (init KByte []) (Receive 2 [])) = REnd /\
+  snd (step (init KByte [[97]]) (Receive 0 [])) = RValueError.
 Proof. vm_compute. auto 10. Qed.
 
 Example ex_exactly_negative :
@@ -972,7 +1064,7 @@ Proof. vm_compute. reflexivity. Qed.
 
 Example ex_conservation_run :
   let s := init KByte [[97; 59]; [10; 98; 98]; [59]] in
-  let ops := [Until [59; 10] 8 [[]; [97; 97]]; Feed [97]; Receive 2; Exactly 3; Until [59] 2 []] in
+  let ops := [Until [59; 10] 8 [[]; [97; 97]]; Feed [97]; Receive 2 [[98]]; Exactly 3; Until [59] 2 []] in
   buf s ++ arrived_run s ops = consumed_run s ops ++ buf (final step s ops) /\
   consumed_run s ops <> [] /\ src (final step s ops) = [].
 Proof. vm_compute. split; [reflexivity|]. split; [discriminate|reflexivity]. Qed.
